@@ -48,7 +48,7 @@ PROPS_K = {
 
 MANIFEST_CHECKS_K = {
     "C04": {
-        "text": "Seeded search over histories of the unpack route machinery: the switch (disable_extensions blocks, nested, left normally or by an injected exception) x the extension state (real C++ kernel built from the working tree, unbuildable, no kernel, failing on chosen calls then healed). After every call through quanto::unpack, quanto_py::unpack, quanto_ext::unpack, PackedTensor.pack/unpack, aten ops on packed tensors, detach/to/flatten-unflatten: bit equality with an independent numpy reference codec (all 256 byte values in every run, every residue of rows mod 8/bits, contiguous and strided views of rank 1-4), payload density, fallback really happening with a warning, no extension call inside a disable block, switch restored after the outermost exit. Fault-free and fault batches are separate. Evidence over the explored histories and inputs, not proof.",
+        "text": "Seeded search over histories of the unpack route machinery: the switch (disable_extensions blocks, nested, left normally or by an injected exception) x the extension state (real C++ kernel built from the working tree, unbuildable, no kernel, failing on chosen calls then healed). After every call through quanto::unpack, quanto_py::unpack, quanto_ext::unpack, PackedTensor.pack/unpack, aten ops on packed tensors, detach/to/flatten-unflatten: bit equality with an independent numpy reference codec (all 256 byte values in every run, every residue of rows mod 8/bits, contiguous and strided views of rank 1-4; in about one run in sixteen a 40-650 KiB payload unpacked with 2-4 intra-op threads), payload density, fallback really happening with a warning, no extension call inside a disable block, switch restored after the outermost exit. Fault-free and fault batches are separate. Evidence over the explored histories and inputs, not proof.",
         "design_ref": "DESIGN.md section 4 (Engine K), 5 (C04), 3.3 (ext_state, switch), 3.4 (bit codec)",
         "note": "Trusted: torch dispatcher/warnings, numpy. The three failing extension states are proxies on ext._lib (one variant fails for real through cpp_extension.load); CUDA/MPS kernels are not run. If the C++ kernel cannot be built the check reports it (components, probe real_cpp_unavailable) instead of failing. First use of a source hash adds one ~46 s build under /verif/.cache.",
         "technique": "deterministic simulation with fault injection: seeded history search over route states, replayable plans, bit-exact reference codec",
